@@ -546,8 +546,10 @@ class Spec(PropSpec):
     rule = ("two families: (a) timer-only hosts with several tasks, each owning a destructor-counting guard, crashed and bounced "
             "(by name, address, regex over several hosts, twice, bounce without crash, crash of a client) at every / random step "
             "indices, compared with the core model; (b) a fixed four-host network workload (echo, listener with queued SYNs, peer "
-            "that never reads, split stream with reader and writer tasks, UDP echo + multicast membership, background ticker, a "
-            "reconnecting client, an uninvolved TCP/UDP pair) with crash at every step index, bounce after 0..k steps, random "
+            "that never reads, split stream with reader and writer tasks, full-window burst drained by peek+read_exact / plain reads, "
+            "accept-side and connect-side blocked writers in write_all and readiness style, loopback pair, UDP echo + multicast group "
+            "with 1-3 members, runtime-seeking destructors, background ticker, a reconnecting client, an uninvolved TCP/UDP pair; "
+            "tcp_capacity 1/2/4/64) with crash at every step index, bounce after 0..k steps, repeated crashes of a crashed host, random "
             "crash/bounce sequences on server, client or both; the victim's tables and live socket objects before each call are "
             "fed to the Tables model and its released tables / FIN / RST messages compared with the implementation; a case is "
             "non-trivial when a running host with live sockets or several tasks is crashed or bounced; distinct = distinct script")
